@@ -45,6 +45,8 @@ LINES = [
     ["retry", "COLON", "MINUS", "d1", "LF"],
     ["retry", "COLON", "PLUS", "d1", "LF"],
     ["retry", "COLON", "SP", "MINUS", "d0", "CR", "LF"],
+    ["retry", "COLON", "d0", "LF"],                       # a retry of zero is a valid retry field
+    ["retry", "COLON", "SP", "d0", "d0", "LF"],
     ["COLON", "x", "LF"],
     ["datax", "COLON", "x", "LF"],
     ["LF"],
@@ -233,9 +235,14 @@ def run_C20(ctx):
             dict(entry="conn", initcap=300, max=0), dict(entry="conn", initcap=0, max=5000), dict(entry="conn", initcap=0, max=100000)]
     if not q:
         cfgs += [dict(entry="read", initcap=0, max=4096), dict(entry="read", initcap=0, max=70000), dict(entry="conn", initcap=0, max=9000)]
+    HUGE = 2000000000   # stands for math.MaxInt in the driver: "no limit"
+    cfgs += [dict(entry="read", initcap=0, max=HUGE), dict(entry="conn", initcap=0, max=HUGE)]
     for i, c in enumerate(cfgs):
         limit = max(c["initcap"], c["max"] if (c["max"] > 0 or c["initcap"] > 0) else 65536)
         streams = scan_streams(limit, not q)
+        if limit >= HUGE:
+            streams = [dict(units=[dict(b=b, e=e, c=0) for b, e in sq], tail=dict(kind=k, n=n))
+                       for sq in ([(0, 16)], [(1, 4096), (0, 20)], [(5, 70000), (0, 16)]) for k, n in (("none", 0), ("event", 20), ("line", 30))]
         consts = dict(Cfgs=Raw("{" + core.tla_value(c) + "}"),
                       Streams=Raw("{" + ", ".join(core.tla_value(s) for s in streams) + "}"),
                       Policies=Raw(("{0}" if limit > 70000 else "{0, 1000}") if q else "{0, 1000, 4096, 333}"))
